@@ -81,7 +81,7 @@ struct C03 : Driver {
     for (int k = 0; k < K; k++) {
       RunCfg r = compress_cfg(rng, level, seq, k == 0 ? 1 : random_workers(rng), k != 0);
       if (k == 0) { r.sched = sim::Sched(); r.sched.policy = sim::P_DEFAULT; r.in_kind = sim::K_FILE; }
-      else if (rng.below(4) == 0) { r.argv.push_back("f"); }     // FILE operand: f -> f.bz2
+      else if (rng.below(3) == 0) { r.argv.push_back("f"); }     // FILE operand: f -> f.bz2
       c.runs.push_back(r);
     }
     return c;
